@@ -30,6 +30,9 @@ func (r *Run) randPolicy(depth int) types.SpendPolicy {
 	case 0:
 		return types.PolicyAbove(r.rng.Uint64())
 	case 1:
+		if r.rng.IntN(4) == 0 { // before 1970, the zero time, one second either side of the epoch
+			return types.PolicyAfter([]time.Time{time.Unix(-1, 0), time.Unix(0, 0), time.Unix(1, 0), {}, time.Unix(-int64(r.rng.Uint64()>>30), 0)}[r.rng.IntN(5)])
+		}
 		return types.PolicyAfter(time.Unix(int64(r.rng.Uint64()>>28), 0))
 	case 2:
 		var pk types.PublicKey
@@ -41,9 +44,18 @@ func (r *Run) randPolicy(depth int) types.SpendPolicy {
 		return types.PolicyHash(h)
 	case 4:
 		n := r.rng.IntN(4)
+		if depth == 0 && r.rng.IntN(10) == 0 {
+			n = []int{31, 32, 33, 34, 40, 64, 100, 255}[r.rng.IntN(8)] // wide thresholds (a 17-of-33 multisig is a valid policy)
+		}
 		var of []types.SpendPolicy
 		for i := 0; i < n; i++ {
-			of = append(of, r.randPolicy(depth+1))
+			if n > 8 {
+				var pk types.PublicKey
+				r.fillBytes(pk[:])
+				of = append(of, types.PolicyPublicKey(pk))
+			} else {
+				of = append(of, r.randPolicy(depth+1))
+			}
 		}
 		return types.PolicyThreshold(uint8(r.rng.IntN(5)), of)
 	case 5:
@@ -124,6 +136,10 @@ func (r *Run) fill(v reflect.Value, depth int) {
 		}
 	case reflect.Slice:
 		n := r.rng.IntN(4)
+		if t.Elem().Kind() == reflect.Uint8 && r.rng.IntN(12) == 0 {
+			// byte strings around and above the encoder's buffer size (1024) and larger
+			n = []int{1023, 1024, 1025, 2048, 1500 + r.rng.IntN(3000)}[r.rng.IntN(5)]
+		}
 		if n == 0 {
 			return
 		}
